@@ -249,9 +249,22 @@ static int URI_FUNC(RemoveBaseUriImpl)(URI_TYPE(Uri) * dest,
 									|| ((sourceSeg != NULL) && (baseSeg != NULL)
 										&& (sourceSeg->next == NULL) && (baseSeg->next == NULL)
 										&& !URI_FUNC(CompareRange)(&sourceSeg->text, &baseSeg->text))) {
-								/* Same path: the empty path refers to the base itself */
-								sourceSeg = NULL;
-								baseSeg = NULL;
+								/* Same path */
+								if ((absSource->query.first != NULL)
+										|| (absBase->query.first == NULL)) {
+									/* The empty path refers to the base itself */
+									sourceSeg = NULL;
+									baseSeg = NULL;
+								} else if (sourceSeg == NULL) {
+									/* ... but would inherit the query of the base:
+									 * "." has no query and is the same (empty) path */
+									pathNaked = URI_FALSE;
+									if (!URI_FUNC(AppendSegment)(dest, URI_FUNC(ConstPwd),
+											URI_FUNC(ConstPwd) + 1, memory)) {
+										return URI_ERROR_MALLOC;
+									}
+								}
+								/* else: the last segment is written out below */
 							} else if (sourceSeg == NULL) {
 								/* Source path empty, base path not: "." (or "..", below)
 								 * leads to the root that an empty path stands for */
